@@ -1,7 +1,7 @@
 """C18: listing and usage options change nothing but what they advertise.
 
 Differential across configurations: the same history under {listing allowed, disallowed} x
-{no usage db, usage db} x {no blur, 1, 61, 3600}; all frames except `nameplates` answers (and the
+{no usage db, usage db} x {no blur, 0, 1, 61, 3600}; all frames except `nameplates` answers (and the
 welcome notices) and all channel rows must be identical.  Every `list` answer is judged online by
 the tracker: exactly the live nameplates of the caller's app when allowed, empty when disallowed."""
 from .common import *
@@ -9,7 +9,7 @@ from .. import scenarios, diff
 
 GEN = dict(napps=2, nsides=3, steps=64, p_illegal=0.04)
 BASE = Config(usage=False, blur=None, allow_list=True)
-VARIANTS = [Config(usage=u, blur=b, allow_list=a) for a in (True, False) for u in (False, True) for b in (None, 1, 61, 3600)
+VARIANTS = [Config(usage=u, blur=b, allow_list=a) for a in (True, False) for u in (False, True) for b in (None, 0, 1, 61, 3600)
             if not (a and not u and b is None)]
 
 
